@@ -40,7 +40,7 @@ TECHNIQUE = ("Lean 4 machine-checked proof over a model whose pre-set fit functi
 
 
 def gen_cases(ctx, n):
-    cases = []
+    cases = G.corpus(ID)
     # every data-passing form and every sigma pattern appears at least once per run
     for form in G.FORMS:
         cases.append(G.gen_case(ctx.rng, form=form))
